@@ -258,3 +258,26 @@ def load(name=None, merge=True, stubs=True):
 def unload(pkg):
     for k in [k for k in sys.modules if k == pkg.name or k.startswith(pkg.name + '.')]:
         del sys.modules[k]
+
+
+_REGISTRIES = [('functions', 'opcodes'), ('functions', 'opcodes_inverse'), ('functions', 'nopcodes'),
+               ('functions', 'nopcodes_inverse'), ('functions', 'opcode_aliases'), ('functions', '_contracts'),
+               ('functions', '_contract_interfaces'), ('functions', '_plugins'), ('functions', 'flags'),
+               ('parsing', 'additional_opcodes')]
+
+
+def snapshot(pkg):
+    """copy of the module-level registries (restored before every path of harnesses that mutate them)"""
+    snap = {}
+    for m, n in _REGISTRIES:
+        d = getattr(pkg.mods[m], n)
+        snap[(m, n)] = {k: (list(v) if isinstance(v, list) else v) for k, v in d.items()}
+    return snap
+
+
+def restore(pkg, snap):
+    for (m, n), content in snap.items():
+        d = getattr(pkg.mods[m], n)
+        d.clear()
+        for k, v in content.items():
+            d[k] = list(v) if isinstance(v, list) else v
